@@ -151,7 +151,15 @@ Inductive val :=
 | VEdge (src desc dst : val) (close : list trivia)
 | VRecord (id : bytes) (fields : list val) (close : list trivia)
 | VMarked (id : bytes) (pads : nat) (v : val)        (* a marker, padding events, the marked value *)
-| VRef (id : bytes).                                 (* a local reference *)
+| VRef (id : bytes)                                  (* a local reference *)
+| VChunked (b : event) (chunks : list (list (bool * bytes) * N * bool * list bytes)).
+    (* an array delivered in chunks: the begin event (EArrayBegin / EMediaBegin / ECustomBegin), then for every
+       chunk the comments before it, its declared length, its more-chunks-follow flag and the payloads of its data
+       events *)
+
+Definition comment_event (x : bool * bytes) : event := EComment (fst x) (snd x).
+Definition chunk_events (ch : list (bool * bytes) * N * bool * list bytes) : list event :=
+  let '(cm, n, more, ds) := ch in map comment_event cm ++ EArrayChunk n more :: map EArrayData ds.
 
 Fixpoint flatten (v : val) : list event :=
   match v with
@@ -166,6 +174,7 @@ Fixpoint flatten (v : val) : list event :=
   | VRecord id fields close => ERecord id :: flat_map flatten fields ++ map trivia_event close ++ [EEnd]
   | VMarked id pads v => EMarker id :: repeat EPadding pads ++ flatten v
   | VRef id => [ERefLocal id]
+  | VChunked b chunks => b :: flat_map chunk_events chunks
   end.
 
 (* nesting depth *)
@@ -181,6 +190,7 @@ Fixpoint height (v : val) : N :=
   | VRecord _ fields _ => 1 + list_max (map height fields)
   | VMarked _ _ v => height v
   | VRef _ => 0
+  | VChunked _ _ => 0
   end.
 
 Definition is_null_event (e : event) : bool :=
@@ -247,6 +257,55 @@ Fixpoint nkeys_distinct (ks : list (option nkey)) : bool :=
   | Some k :: r => negb (existsb (fun x => match x with Some k' => nkey_eqb k k' | None => false end) r) && nkeys_distinct r
   end.
 
+(* ---- arrays delivered in chunks ---- *)
+(* the array type a begin event announces, if the event is acceptable at all *)
+Definition chunked_type (b : event) : option arrty :=
+  match b with
+  | EArrayBegin t => if array_api_ok t then Some t else None
+  | EMediaBegin mt => if utf8_valid mt && media_type_valid mt then Some AT_Media else None
+  | ECustomBegin t ct => if custom_api_ok t && custom_type_ok ct then Some t else None
+  | _ => None
+  end.
+(* the bytes a chunk of [n] elements announces: [n] for the string-like types, otherwise the element count times
+   the element size, computed as the implementation does (64-bit wrap-around) *)
+Definition chunk_byte_count (t : arrty) (n : N) : option N :=
+  if is_stringlike_validated t then Some n
+  else match array_bits t with Some bits => Some (elem_byte_count bits n) | None => None end.
+(* the data events of a chunk deliver exactly the announced bytes, and not before the last one; [a] = the bytes
+   already delivered *)
+Fixpoint data_completes (ex a : N) (ds : list bytes) : bool :=
+  match ds with
+  | [] => false
+  | d :: r => let a' := a + blen d in
+              if a' =? ex then match r with [] => true | _ => false end else (a' <? ex) && data_completes ex a' r
+  end.
+(* the chunks of an array of type [t]; [total] = the bytes announced so far (modulo 2^64, as counted by the
+   implementation).  A chunk of length 0 has no data events; every other chunk's data events deliver the
+   announced bytes, which for the string-like types are valid UTF-8 on their own (every chunk ends on a character
+   boundary); the running total stays within the array size limit; the more flag is set on all chunks but the last;
+   comments may stand before a chunk, except in the string-like arrays *)
+Fixpoint chunks_ok (cfg : rcfg) (t : arrty) (total : N) (chs : list (list (bool * bytes) * N * bool * list bytes)) : bool :=
+  match chs with
+  | [] => false
+  | (cm, n, more, ds) :: r =>
+      let tail_ok tot := if more then chunks_ok cfg t tot r else match r with [] => true | _ => false end in
+      (* comments between the chunks: not in the string-like arrays *)
+      (if is_stringlike_validated t then match cm with [] => true | _ => false end else true) &&
+      if n =? 0 then match ds with [] => tail_ok total | _ => false end
+      else match chunk_byte_count t n with
+           | None => false
+           | Some ex =>
+               let tot := (total + ex) mod two64 in
+               length_ok cfg tot && data_completes ex 0 ds &&
+               (if is_stringlike_validated t then utf8_valid (concat ds) else true) && tail_ok tot
+           end
+  end.
+Definition chunked_ok (cfg : rcfg) (p : vpos) (b : event) (chs : list (list (bool * bytes) * N * bool * list bytes)) : bool :=
+  match chunked_type b with
+  | Some t => match array_dtype t with Some _ => true | None => false end && arr_guard p t && chunks_ok cfg t 0 chs
+  | None => false
+  end.
+
 (* what a marker can be put on directly: not trivia, not a marker, not a reference; arrays of a markable type *)
 Definition markable (v : val) : bool :=
   match v with
@@ -254,6 +313,7 @@ Definition markable (v : val) : bool :=
   | VLeaf (EMedia _ _) => assert_array_type AT_Media Allow_Markable
   | VLeaf (ECustomBin _ _) => assert_array_type AT_CustomBinary Allow_Markable
   | VLeaf (ECustomText _ _) => assert_array_type AT_CustomText Allow_Markable
+  | VChunked b _ => match chunked_type b with Some t => assert_array_type t Allow_Markable | None => false end
   | VT _ _ | VMarked _ _ _ | VRef _ => false
   | _ => true
   end.
@@ -275,6 +335,7 @@ Fixpoint wf_val (cfg : rcfg) (rts : list (bytes * N)) (p : vpos) (v : val) : boo
       forallb (wf_val cfg rts PPlain) fields
   | VMarked id _ v => validate_identifier cfg id && markable v && wf_val cfg rts p v
   | VRef id => validate_identifier cfg id
+  | VChunked b chs => chunked_ok cfg p b chs
   end.
 
 (* The marker / reference bookkeeping of a value, on sets of identifiers: [fst st] = the ids marked so far,
@@ -312,6 +373,7 @@ Fixpoint reg_val (v : val) (st : list bytes * list bytes) : option (list bytes *
       | None => None
       end
   | VRef id => let '(mk, fw) := st in if id_mem id mk || id_mem id fw then Some st else Some (mk, id :: fw)
+  | VChunked _ _ => Some st
   end.
 (* the same over a list of values *)
 Fixpoint reg_list (vs : list val) (st : list bytes * list bytes) : option (list bytes * list bytes) :=
@@ -375,30 +437,30 @@ Definition chunk_state (st : arrty * N) (es : list event) : arrty * N := fold_le
 Definition within_limits_full (cfg : rcfg) (es : list event) : Prop :=
   within_limits cfg es /\ length_ok cfg (chunked_array_usage es) = true.
 
-(* the events of the tree grammar [doc]: all but arrays delivered in chunks (begin, chunk, data) *)
-Definition grammar_event (e : event) : bool :=
-  match e with
-  | EArrayBegin _ | EMediaBegin _ | ECustomBegin _ _ | EArrayChunk _ _ | EArrayData _ => false
-  | _ => true
-  end.
-(* ... without markers and references *)
-Definition plain_event (e : event) : bool :=
-  grammar_event e && match e with EMarker _ | ERefLocal _ => false | _ => true end.
-(* event lists inside the marker-free fragment of [doc] *)
-Definition in_fragment (es : list event) : bool := forallb plain_event es.
-(* event lists over the alphabet of [doc] *)
+(* the events of the tree grammar [doc]: all *)
+Definition grammar_event (e : event) : bool := true.
 Definition in_grammar (es : list event) : bool := forallb grammar_event es.
-(* markers and references only where a value may start: none where the validator expects a map key (the rule in
-   force after the events before it is the map-key rule) *)
+Definition is_array_begin (e : event) : bool :=
+  match e with EArrayBegin _ | EMediaBegin _ | ECustomBegin _ _ => true | _ => false end.
 Definition is_marker_or_ref (e : event) : bool := match e with EMarker _ | ERefLocal _ => true | _ => false end.
-Definition value_markers_only (cfg : rcfg) (es : list event) : Prop :=
-  forall p e tl, es = p ++ e :: tl -> is_marker_or_ref e = true -> rule_in_force cfg p <> Some RMapKey.
+(* the events that cannot stand for a key on their own: markers, references, the begin of an array in chunks *)
+Definition not_a_plain_key (e : event) : bool := is_marker_or_ref e || is_array_begin e.
+(* ... the others *)
+Definition plain_event (e : event) : bool := negb (not_a_plain_key e).
+(* event lists without markers, references and arrays in chunks *)
+Definition in_fragment (es : list event) : bool := forallb plain_event es.
+(* keys are plain: where the validator expects a map key or a field name of a record type (the rule in force
+   after the events before is the map-key rule / the record-type rule) there is no marker, no reference and no
+   array delivered in chunks *)
+Definition plain_keys_only (cfg : rcfg) (es : list event) : Prop :=
+  forall p e tl, es = p ++ e :: tl -> not_a_plain_key e = true ->
+    rule_in_force cfg p <> Some RMapKey /\ rule_in_force cfg p <> Some RRecordType.
 (* the same, decided along the run *)
-Fixpoint value_markers_from (cfg : rcfg) (c : rctx) (es : list event) : bool :=
+Fixpoint plain_keys_from (cfg : rcfg) (c : rctx) (es : list event) : bool :=
   match es with
   | [] => true
   | e :: r =>
-      negb (is_marker_or_ref e && match e_rule (cur c) with RMapKey => true | _ => false end) &&
-      match rstep cfg c e with Some (c1, _) => value_markers_from cfg c1 r | None => true end
+      negb (not_a_plain_key e && match e_rule (cur c) with RMapKey | RRecordType => true | _ => false end) &&
+      match rstep cfg c e with Some (c1, _) => plain_keys_from cfg c1 r | None => true end
   end.
-Definition value_markers_onlyb (cfg : rcfg) (es : list event) : bool := value_markers_from cfg init_rctx es.
+Definition plain_keys_onlyb (cfg : rcfg) (es : list event) : bool := plain_keys_from cfg init_rctx es.
